@@ -222,3 +222,140 @@ func (r *VerifC09RPC) Updates() []VerifMsg {
 		return out
 	}
 }
+
+// ---- a live SourceControl: real Start / CoreLoop / Stop, blocks supplied by the harness ----
+
+// VerifC09Live is a SourceControl built as RunRPCServer builds it (no socket). Its TriangleSource is given a
+// block period of one hour, so that the producer goroutine of a started source never delivers a block of its
+// own; the harness hands its blocks to the running CoreLoop through the request queue, which processes them
+// exactly where production blocks are processed. Client updates are captured, not published.
+type VerifC09Live struct {
+	SC        *SourceControl
+	updates   chan ClientUpdate
+	recChan   chan []*DataRecord
+	sumChan   chan []*DataRecord
+	stopDrain chan struct{}
+}
+
+// VerifC09NewLive configures (but does not start) the source.
+func VerifC09NewLive(nchan, npre, nsamp int, sampleRate float64) (*VerifC09Live, error) {
+	verifBenchMu.Lock()
+	l := &VerifC09Live{updates: make(chan ClientUpdate, 1024), stopDrain: make(chan struct{})}
+	l.recChan = make(chan []*DataRecord, 1<<16)
+	l.sumChan = make(chan []*DataRecord, 1<<16)
+	PubRecordsChan = l.recChan
+	PubSummariesChan = l.sumChan
+	viper.Set("trigger", []FullTriggerState{})
+	sc := NewSourceControl()
+	sc.clientUpdates = l.updates
+	ms := newMapServer()
+	ms.clientUpdates = l.updates
+	sc.mapServer = ms
+	sc.status.Npresamp = npre
+	sc.status.Nsamples = nsamp
+	hb := sc.heartbeats
+	go func() {
+		for {
+			select {
+			case <-clientMessageChan: // trigger-rate messages of the broker
+			case <-hb:
+			case <-l.stopDrain:
+				return
+			}
+		}
+	}()
+	l.SC = sc
+	if err := sc.triangle.Configure(&TriangleSourceConfig{Nchan: nchan, SampleRate: sampleRate, Min: 100, Max: 200}); err != nil {
+		l.Close()
+		return nil, err
+	}
+	sc.triangle.timeperbuf = time.Hour
+	return l, nil
+}
+
+// Close releases the publication channels (stop the source first).
+func (l *VerifC09Live) Close() {
+	close(l.stopDrain)
+	PubRecordsChan = nil
+	PubSummariesChan = nil
+	verifBenchMu.Unlock()
+}
+
+// Source returns the AnySource of the triangle source.
+func (l *VerifC09Live) Source() *AnySource { return &l.SC.triangle.AnySource }
+
+// Updates returns the client updates sent since the last call, in order.
+func (l *VerifC09Live) Updates() []VerifMsg {
+	var out []VerifMsg
+	for {
+		select {
+		case m := <-l.updates:
+			js, _ := json.Marshal(m.state)
+			out = append(out, VerifMsg{Tag: m.tag, JSON: string(js)})
+			continue
+		default:
+		}
+		return out
+	}
+}
+
+// InCoreLoop runs f inside the running CoreLoop (as a queued request) and waits for it.
+func (l *VerifC09Live) InCoreLoop(f func()) {
+	l.SC.queuedRequests <- func() {
+		f()
+		l.SC.queuedResults <- nil
+	}
+	<-l.SC.queuedResults
+}
+
+// Block has the running CoreLoop process one block (same plumbing as VerifBench.Block).
+func (l *VerifC09Live) Block(chans [][]uint16, signed []bool, firstFrame, firstTimeNs, periodNs int64) VerifBlockResult {
+	ds := l.Source()
+	block := new(dataBlock)
+	block.segments = make([]DataSegment, len(chans))
+	for c := range chans {
+		raw := make([]RawType, len(chans[c]))
+		for i, v := range chans[c] {
+			raw[i] = RawType(v)
+		}
+		block.segments[c] = DataSegment{rawData: raw, framesPerSample: 1,
+			firstFrameIndex: FrameIndex(firstFrame), firstTime: time.Unix(0, firstTimeNs),
+			framePeriod: time.Duration(periodNs), signed: signed[c], voltsPerArb: ds.voltsPerArb[c]}
+	}
+	if len(chans) > 0 {
+		block.nSamp = len(chans[0])
+	}
+	var res VerifBlockResult
+	l.InCoreLoop(func() {
+		if err := ds.ProcessSegments(block); err != nil {
+			res.Err = err.Error()
+		}
+	})
+	res.Primaries = make([][]int64, len(ds.processors))
+	res.Records = make([][]VerifRecord, len(ds.processors))
+	for c, dsp := range ds.processors {
+		for _, f := range dsp.lastTrigList.frames {
+			res.Primaries[c] = append(res.Primaries[c], int64(f))
+		}
+	}
+	for {
+		select {
+		case recs := <-l.recChan:
+			for _, r := range recs {
+				res.Records[r.channelIndex] = append(res.Records[r.channelIndex], verifRecord(r))
+			}
+			continue
+		default:
+		}
+		break
+	}
+	for {
+		select {
+		case <-l.sumChan:
+			continue
+		default:
+		}
+		break
+	}
+	return res
+}
